@@ -396,6 +396,17 @@ fn gen_main(args: &[String]) {
                 });
             }
         }
+        "FILE" => {
+            // (rule, data) pairs in the exact token encoding, one JSON object per line
+            let text = std::fs::read_to_string(get_arg(args, "--file", "")).unwrap_or_default();
+            let mut cases = Vec::new();
+            for l in text.lines() {
+                if let Ok(v) = serde_json::from_str::<Value>(l) {
+                    cases.push(Case { work: Work::Apply { rule: runner::dec(&v["rule"]), data: runner::dec(&v["data"]) }, tag: "file".into() });
+                }
+            }
+            simple(cases, &mut emitted);
+        }
         "ES" => {
             // the ECMAScript engine installed here (node) as the oracle for the conversion and
             // comparison helpers: S and M are checked against what JavaScript itself computes
